@@ -229,7 +229,8 @@ func (t *stdioClientTransport) sendRequest(ctx context.Context, req *JSONRPCRequ
 		t.pendingMutex.Lock()
 		delete(t.pendingRequests, reqID)
 		t.pendingMutex.Unlock()
-		close(respChan)
+		// The channel is not closed: the reader may be between its table lookup and its (non-blocking)
+		// send, and close() may be clearing the table; it is simply dropped.
 	}()
 
 	// Send request.
@@ -654,8 +655,9 @@ func (t *stdioClientTransport) close() error {
 
 	// Close all pending request channels.
 	t.pendingMutex.Lock()
-	for reqID, ch := range t.pendingRequests {
-		close(ch)
+	// Pending callers are woken by t.cancel() above (sendRequest selects on t.ctx.Done()); their
+	// channels are not closed here, because sendRequest's own cleanup and the reader also touch them.
+	for reqID := range t.pendingRequests {
 		delete(t.pendingRequests, reqID)
 	}
 	t.pendingMutex.Unlock()
